@@ -326,6 +326,38 @@ impl Engine for ConcEngine {
             knobs.insert("prefill".into(), 0);
             knobs.insert("recreate".into(), 1);
         }
+        // "expired rmw" family (own tape): a key arrives already expired while the sweeper runs,
+        // and one client follows up with two automatic writes in the same clock tick - the
+        // versions handed out around a retirement somebody else performed must still increase
+        let mut x = Tape::fresh(mix(seed, 0xE8A1));
+        let mut sim = sim;
+        let mut store = store;
+        if matches!(property, "C11" | "C18") && ttl && x.chance(1, 8) {
+            sim.tick_ns = 0;
+            store.sweeper = Some(SweeperCfg { interval_ms: 1, sample_size: 1 + x.below(3) as usize });
+            let t = epoch.wrapping_sub(450) + x.below(300) as u64;
+            let auto_write = |x: &mut Tape, len: usize| match x.below(5) {
+                0 | 1 => Op::Incr { key: 0, delta: 1 << (3 + x.below(20)), ts: Ts::Auto, ttl: 0 },
+                2 => Op::Insert { key: 0, val: Val { len, kind: ValKind::Plain }, ts: Ts::Auto, ttl: 0, bytes: false },
+                3 => Op::Delete { key: 0, ts: Ts::Auto },
+                _ => Op::InsertIfAbsent { key: 0, val: Val { len: len + 1, kind: ValKind::Plain } },
+            };
+            let writer = vec![
+                Op::Advance { ns: 2_500_000_000 },
+                Op::Insert { key: 0, val: Val { len: 3001, kind: ValKind::Plain }, ts: Ts::Abs(t), ttl: 1, bytes: x.chance(1, 2) },
+                Op::Get { key: 0, bytes: false },
+                auto_write(&mut x, 3002),
+                auto_write(&mut x, 3004),
+                auto_write(&mut x, 3006),
+            ];
+            clients.truncate(2);
+            for c in clients.iter_mut() {
+                c.retain(|op| matches!(op, Op::Get { .. } | Op::Range { .. }));
+            }
+            clients.push(writer);
+            knobs.insert("prefill".into(), 0);
+            knobs.insert("expired_rmw".into(), 1);
+        }
         Scenario {
             engine: "conc".into(),
             property: property.into(),
